@@ -2,8 +2,11 @@
    service_provider.go) and its view in the IdP model (IdPModel.authnreq, what
    IdpAuthnRequest.Validate reads after xml.Unmarshal).  Bridges Outbound.v and
    IdPModel.v; definitions only, lemmas are in OutboundIdPProofs.v. *)
+(* IdPModel is imported first: where the two models use the same name (spcfg,
+   endpoint, sp_idp_entity, ...) the unqualified name is Outbound's; IdPModel's
+   are always written qualified *)
+From Saml Require Import IdPModel.
 From Saml Require Import Base UrlEnc TimeModel Outbound.
-From Saml Require IdPModel.
 
 (* IssueInstant is written by Element() as Format("2006-01-02T15:04:05.999Z07:00"):
    the digits below the millisecond are cut off (no rounding); the IdP parses
